@@ -18,15 +18,15 @@ Local Open Scope Z_scope.
 (** the descriptor groups are NAMED 1..n in the order they were appended, after every history of
     append / modify / delete-all / reopen calls (accepted or rejected), on arrays of every element type and
     rank - for the code as pinned and as repaired *)
-Theorem C13_dims_gap_free : forall b ops t rank len fs,
-  let s := dfinal b ops (dinit t rank len fs) in keys (dims s) = zrange (count s).
+Theorem C13_dims_gap_free : forall b ops t rank len fs ffs,
+  let s := dfinal b ops (dinit t rank len fs ffs) in keys (dims s) = zrange (count s).
 Proof. exact dims_gap_free. Qed.
 Print Assumptions C13_dims_gap_free.
 
 (** dimensions() returns exactly those n descriptors with their kinds, getDimension(0) and
     getDimension(n+1) are none, dimensionCount() is n *)
-Theorem C13_dims_answer : forall b ops t rank len fs,
-  let s := dfinal b ops (dinit t rank len fs) in
+Theorem C13_dims_answer : forall b ops t rank len fs ffs,
+  let s := dfinal b ops (dinit t rank len fs ffs) in
   snd (dstep b Dims s) = Ok (ADims (map (fun p => (fst p, kind_of (snd p))) (dims s))) /\
   snd (dstep b (GetDim 0) s) = Ok (AKind None) /\
   snd (dstep b (GetDim (count s + 1)) s) = Ok (AKind None) /\
@@ -39,9 +39,9 @@ Print Assumptions C13_dims_answer.
     axis, data-frame column queries, array label / unit / data writes, deleteDimensions, reopen, and the full
     dump [Observe] - exactly as the plain-list specification [sp_step] demands: descriptor i is the i-th
     list element, an accepted write replaces that element's field, a refused call changes nothing *)
-Theorem C13_dim_readback : forall ops t rank len fs,
-  abs (fst (drun repaired ops (dinit t rank len fs))) = fst (sp_run ops (sinit t rank len fs)) /\
-  map forget (snd (drun repaired ops (dinit t rank len fs))) = snd (sp_run ops (sinit t rank len fs)).
+Theorem C13_dim_readback : forall ops t rank len fs ffs,
+  abs (fst (drun repaired ops (dinit t rank len fs ffs))) = fst (sp_run ops (sinit t rank len fs ffs)) /\
+  map forget (snd (drun repaired ops (dinit t rank len fs ffs))) = snd (sp_run ops (sinit t rank len fs ffs)).
 Proof. exact history_refines. Qed.
 Print Assumptions C13_dim_readback.
 
@@ -90,8 +90,8 @@ Print Assumptions C13_readback_offset_setter.
     RangeDimension::ticks), the ticks of a NON-alias range dimension are ascending after every history.
     (An alias has no ticks of its own: it shows the array's data, and writing unsorted DATA through the
     array is not a dimension entry point - excluded, as the property says.) *)
-Theorem C13_ticks_sorted_inv : forall ops t rank len fs i ticks u l,
-  lookup i (dims (dfinal repaired ops (dinit t rank len fs))) = Some (DRange ticks u l) -> ascending ticks = true.
+Theorem C13_ticks_sorted_inv : forall ops t rank len fs ffs i ticks u l,
+  lookup i (dims (dfinal repaired ops (dinit t rank len fs ffs))) = Some (DRange ticks u l) -> ascending ticks = true.
 Proof. exact ticks_sorted_inv. Qed.
 Print Assumptions C13_ticks_sorted_inv.
 
@@ -103,8 +103,8 @@ Proof. exact ascending_pairs. Qed.
 Print Assumptions C13_ascending_means.
 
 (** interval_positive_inv: whatever entry point set it, a sampling interval is > 0 (never 0, negative, NaN) *)
-Theorem C13_interval_positive_inv : forall ops t rank len fs i x off u l,
-  lookup i (dims (dfinal repaired ops (dinit t rank len fs))) = Some (DSampled x off u l) -> fgt x fzero = true.
+Theorem C13_interval_positive_inv : forall ops t rank len fs ffs i x off u l,
+  lookup i (dims (dfinal repaired ops (dinit t rank len fs ffs))) = Some (DSampled x off u l) -> fgt x fzero = true.
 Proof. exact interval_positive_inv. Qed.
 Print Assumptions C13_interval_positive_inv.
 
@@ -112,8 +112,8 @@ Print Assumptions C13_interval_positive_inv.
     interval > 0, every non-alias tick vector ascending, every alias showing exactly the array's label, unit
     and data) accepts what the getters return after EVERY history - in particular under every
     interleaving of writes through the alias dimension and through the array *)
-Theorem C13_alias_mirrors_and_invariants : forall ops t rank len fs, (1 <= rank)%nat ->
-  dims_ok (dobserve (dfinal repaired ops (dinit t rank len fs))) = true.
+Theorem C13_alias_mirrors_and_invariants : forall ops t rank len fs ffs, (1 <= rank)%nat ->
+  dims_ok (dobserve (dfinal repaired ops (dinit t rank len fs ffs))) = true.
 Proof. exact observation_ok. Qed.
 Print Assumptions C13_alias_mirrors_and_invariants.
 
@@ -143,8 +143,8 @@ Proof. exact array_writes_seen. Qed.
 Print Assumptions C13_array_writes_seen.
 
 (** deleteDimensions on a writable file leaves none, after every history *)
-Theorem C13_delete_leaves_none : forall b ops t rank len fs,
-  let s := dfinal b ops (dinit t rank len fs) in
+Theorem C13_delete_leaves_none : forall b ops t rank len fs ffs,
+  let s := dfinal b ops (dinit t rank len fs ffs) in
   ro s = false ->
   snd (dstep b DeleteDims s) = Ok (ABool true) /\ dims (fst (dstep b DeleteDims s)) = [] /\
   o_count (dobserve (fst (dstep b DeleteDims s))) = 0 /\ o_dims (dobserve (fst (dstep b DeleteDims s))) = [].
@@ -156,18 +156,29 @@ Theorem C13_reopen_identity : forall b r s,
   snd (dstep b (Reopen r) s) = Ok ADone /\
   dobserve (fst (dstep b (Reopen r) s)) = dobserve s /\
   dims (fst (dstep b (Reopen r) s)) = dims s /\
-  abs (fst (dstep b (Reopen r) s)) = mkS (map snd (dims s)) (a_label s) (a_unit s) (a_data s) (a_ty s) (a_rank s) (frames s) r.
+  abs (fst (dstep b (Reopen r) s)) = mkS (map snd (dims s)) (a_label s) (a_unit s) (a_data s) (a_ty s) (a_rank s) (frames s) r
+    (map keep_persistent (foreign s)) (b2_alive s).
 Proof. exact reopen_identity. Qed.
 Print Assumptions C13_reopen_identity.
 
 (** a rejected dimension call (every op but a write to the array's data) leaves the state as it was *)
-Theorem C13_rejected_no_trace : forall ops t rank len fs o e,
-  let s := dfinal repaired ops (dinit t rank len fs) in
+Theorem C13_rejected_no_trace : forall ops t rank len fs ffs o e,
+  let s := dfinal repaired ops (dinit t rank len fs ffs) in
   dimension_op o -> snd (dstep repaired o s) = Err e -> fst (dstep repaired o s) = s.
 Proof. exact rejected_no_trace_run. Qed.
 Print Assumptions C13_rejected_no_trace.
 
-(** ---- the pinned tree: computed witnesses ---- *)
+(** a frame handle that is not a frame of the array's block - a frame of ANOTHER block whatever its name (also the
+    name of a local frame), the stale handle of a deleted-and-recreated frame, a frame whose block was deleted - is
+    refused by all three appendDataFrameDimension overloads and leaves no trace *)
+Theorem C13_foreign_frame_refused : forall s n c nm, gap_free (dims s) ->
+  (fst (dstep repaired (AppendFrame (FForeign n)) s) = s /\ exists e, snd (dstep repaired (AppendFrame (FForeign n)) s) = Err e) /\
+  (fst (dstep repaired (AppendFrameIdx (FForeign n) c) s) = s /\ exists e, snd (dstep repaired (AppendFrameIdx (FForeign n) c) s) = Err e) /\
+  (fst (dstep repaired (AppendFrameName (FForeign n) nm) s) = s /\ exists e, snd (dstep repaired (AppendFrameName (FForeign n) nm) s) = Err e).
+Proof. exact foreign_frame_refused. Qed.
+Print Assumptions C13_foreign_frame_refused.
+
+(** ---- the tree as it was pinned (behaviour [code_today]): computed witnesses ---- *)
 
 Theorem C13_ticks_sorted_inv_refuted :
   is_ok_ans (snd (dstep code_today (AppendRange [ofZ 3; ofZ 2; ofZ 1] "" "") w_init)) = true /\
@@ -200,9 +211,9 @@ Proof. exact invalid_unit_trace_refuted. Qed.
 Print Assumptions C13_invalid_unit_trace_refuted.
 
 Theorem C13_foreign_frame_trace_refuted :
-  is_ok_ans (snd (dstep code_today (AppendFrame FForeign) w_init)) = false /\
-  count (fst (dstep code_today (AppendFrame FForeign) w_init)) = 1 /\
-  count (fst (dstep repaired (AppendFrame FForeign) w_init)) = 0.
+  is_ok_ans (snd (dstep code_today (AppendFrame (FForeign 0)) w_init)) = false /\
+  count (fst (dstep code_today (AppendFrame (FForeign 0)) w_init)) = 1 /\
+  count (fst (dstep repaired (AppendFrame (FForeign 0)) w_init)) = 0.
 Proof. exact foreign_frame_trace_refuted. Qed.
 Print Assumptions C13_foreign_frame_trace_refuted.
 
